@@ -53,17 +53,27 @@ pub mod vp_auth {
         { unimplemented!() }
     }
     pub struct IdParseError;
+    impl vstd::std_specs::cmp::PartialEqSpecImpl for UserId {
+        open spec fn obeys_eq_spec() -> bool { true }
+        open spec fn eq_spec(&self, other: &UserId) -> bool { self.view() == other.view() }
+    }
     impl PartialEq for UserId {
         #[verifier::external_body]
-        fn eq(&self, other: &Self) -> (r: bool) ensures r == (self.view() == other.view()) { unimplemented!() }
-        #[verifier::external_body]
-        fn ne(&self, other: &Self) -> (r: bool) ensures r == (self.view() != other.view()) { unimplemented!() }
+        fn eq(&self, other: &Self) -> (r: bool) { unimplemented!() }
     }
     impl OwnedUserId {
         pub uninterp spec fn view(&self) -> Seq<char>;
         pub uninterp spec fn as_user(&self) -> &UserId;
         #[verifier::external_body]
         pub fn to_string(&self) -> (r: String) ensures r@ == self.view() { unimplemented!() }
+    }
+    impl vstd::std_specs::cmp::PartialEqSpecImpl<UserId> for OwnedUserId {
+        open spec fn obeys_eq_spec() -> bool { true }
+        open spec fn eq_spec(&self, other: &UserId) -> bool { self.view() == other.view() }
+    }
+    impl PartialEq<UserId> for OwnedUserId {
+        #[verifier::external_body]
+        fn eq(&self, other: &UserId) -> (r: bool) { unimplemented!() }
     }
     pub broadcast axiom fn ax_owned_user(o: &OwnedUserId)
         ensures #[trigger] o.as_user().view() == o.view();
@@ -85,11 +95,13 @@ pub mod vp_auth {
         #[verifier::external_body]
         pub fn as_str(&self) -> (r: &str) ensures r@ == self.view() { unimplemented!() }
     }
+    impl vstd::std_specs::cmp::PartialEqSpecImpl for ServerName {
+        open spec fn obeys_eq_spec() -> bool { true }
+        open spec fn eq_spec(&self, other: &ServerName) -> bool { self.view() == other.view() }
+    }
     impl PartialEq for ServerName {
         #[verifier::external_body]
-        fn eq(&self, other: &Self) -> (r: bool) ensures r == (self.view() == other.view()) { unimplemented!() }
-        #[verifier::external_body]
-        fn ne(&self, other: &Self) -> (r: bool) ensures r == (self.view() != other.view()) { unimplemented!() }
+        fn eq(&self, other: &Self) -> (r: bool) { unimplemented!() }
     }
     impl EventId {
         pub uninterp spec fn view(&self) -> Seq<char>;
@@ -99,11 +111,13 @@ pub mod vp_auth {
                 r.is_some() ==> r.unwrap().view() == server_of_event_id(self.view()).unwrap(),
         { unimplemented!() }
     }
+    impl vstd::std_specs::cmp::PartialEqSpecImpl for EventId {
+        open spec fn obeys_eq_spec() -> bool { true }
+        open spec fn eq_spec(&self, other: &EventId) -> bool { self.view() == other.view() }
+    }
     impl PartialEq for EventId {
         #[verifier::external_body]
-        fn eq(&self, other: &Self) -> (r: bool) ensures r == (self.view() == other.view()) { unimplemented!() }
-        #[verifier::external_body]
-        fn ne(&self, other: &Self) -> (r: bool) ensures r == (self.view() != other.view()) { unimplemented!() }
+        fn eq(&self, other: &Self) -> (r: bool) { unimplemented!() }
     }
     impl RoomId {
         pub uninterp spec fn view(&self) -> Seq<char>;
@@ -124,26 +138,53 @@ pub mod vp_auth {
     impl Copy for Int {}
     pub broadcast axiom fn ax_int_ext(a: Int, b: Int)
         ensures (#[trigger] a.view() == #[trigger] b.view()) ==> a == b;
+    impl vstd::std_specs::cmp::PartialEqSpecImpl for Int {
+        open spec fn obeys_eq_spec() -> bool { true }
+        open spec fn eq_spec(&self, other: &Int) -> bool { self.view() == other.view() }
+    }
     impl PartialEq for Int {
         #[verifier::external_body]
-        fn eq(&self, other: &Self) -> (r: bool) ensures r == (self.view() == other.view()) { unimplemented!() }
-        #[verifier::external_body]
-        fn ne(&self, other: &Self) -> (r: bool) ensures r == (self.view() != other.view()) { unimplemented!() }
+        fn eq(&self, other: &Self) -> (r: bool) { unimplemented!() }
+    }
+    impl vstd::std_specs::cmp::PartialOrdSpecImpl for Int {
+        open spec fn obeys_partial_cmp_spec() -> bool { true }
+        open spec fn partial_cmp_spec(&self, other: &Int) -> Option<core::cmp::Ordering> {
+            if self.view() < other.view() { Some(core::cmp::Ordering::Less) }
+            else if self.view() == other.view() { Some(core::cmp::Ordering::Equal) }
+            else { Some(core::cmp::Ordering::Greater) }
+        }
     }
     impl PartialOrd for Int {
         #[verifier::external_body]
         fn partial_cmp(&self, other: &Self) -> (r: Option<core::cmp::Ordering>) { unimplemented!() }
-        #[verifier::external_body]
-        fn ge(&self, other: &Self) -> (r: bool) ensures r == (self.view() >= other.view()) { unimplemented!() }
-        #[verifier::external_body]
-        fn gt(&self, other: &Self) -> (r: bool) ensures r == (self.view() > other.view()) { unimplemented!() }
-        #[verifier::external_body]
-        fn le(&self, other: &Self) -> (r: bool) ensures r == (self.view() <= other.view()) { unimplemented!() }
-        #[verifier::external_body]
-        fn lt(&self, other: &Self) -> (r: bool) ensures r == (self.view() < other.view()) { unimplemented!() }
     }
     #[verifier::external_body]
     pub fn int_from_i64(v: i64) -> (r: Int) ensures r.view() == v { unimplemented!() }
+
+    // ---- std::collections::BTreeMap<K, V> as a finite map (TRUSTED model: `get` is lookup; key identity is the
+    //      key type's equality, which for the key types used here is the identity of the spelled key) ----------
+    #[verifier::external_body]
+    #[verifier::accept_recursive_types(K)]
+    #[verifier::accept_recursive_types(V)]
+    pub struct BTreeMap<K, V> { _p: Vec<(K, V)> }
+    impl<K, V> BTreeMap<K, V> {
+        pub uninterp spec fn view(&self) -> Map<K, V>;
+        #[verifier::external_body]
+        pub fn get(&self, k: &K) -> (r: Option<&V>)
+            ensures r.is_some() == self.view().contains_key(*k), r.is_some() ==> *r.unwrap() == self.view()[*k],
+        { unimplemented!() }
+    }
+    pub open spec fn omap<K, V>(m: Option<&BTreeMap<K, V>>) -> Map<K, V> {
+        match m { Some(m) => m.view(), None => Map::empty() }
+    }
+    /// ASSUMED contract of `a.iter().flat_map(|m| m.keys()).chain(b.iter().flat_map(|m| m.keys())).collect::<BTreeSet<_>>()`
+    /// followed by iteration: every key of either map, and only those (order and multiplicity are irrelevant to the caller)
+    #[verifier::external_body]
+    pub fn keys_of_both<'a, K>(a: Option<&'a BTreeMap<K, Int>>, b: Option<&'a BTreeMap<K, Int>>) -> (r: Vec<&'a K>)
+        ensures
+            forall|i: int| 0 <= i < r@.len() ==> omap(a).contains_key(*#[trigger] r@[i]) || omap(b).contains_key(*r@[i]),
+            forall|k: K| omap(a).contains_key(k) || omap(b).contains_key(k) ==> exists|i: int| 0 <= i < r@.len() && *#[trigger] r@[i] == k,
+    { unimplemented!() }
 
     // ---- enums of ruma-events (shape assumption: the variants the rules distinguish) ----------
     pub enum MembershipState { Ban, Invite, Join, Knock, Leave, _Custom }
